@@ -7,7 +7,7 @@ Generated into lean/Snel/Gen/C02.lean:
 Every other `grab` only checks that a code shape the Lean model copies is still there (literal
 typing order, string conditions answering `false` for range operators, `conditions[0]` under
 NOT, the Eq-only gates of the XOR pruners, the Neq-less temporal pruner, the unknown-variant
-gate of the enum pruner, the strategy order of the planner, the uid-dependent hydration, the
+gate of the enum pruner, the strategy order of the planner, the hydration of all candidate zones (uid or not), the
 i64 SIMD branch); when one is gone the tie is reported broken.
 """
 import re
@@ -131,7 +131,18 @@ def generate(api):
     rel = "src/engine/core/zone/zone_hydrator.rs"
     t = api.src(rel)
     api.grab(t, r"if let Some\(uid\) = zone\.uid\(\) \{\s*zones_by_uid\.entry", rel, "zones grouped by uid")
-    api.grab(t, r"if zones_by_uid\.is_empty\(\) \{", rel, "event-type loader only when no zone has a uid")
+    api.grab(t, r"if zones_by_uid\.is_empty\(\) \{", rel, "event-type loader when no zone has a uid")
+    # fix 4f45061: in the per-uid branch the zones WITHOUT uid are loaded too (with the plan's
+    # event-type uid). The model's `World.hydrated` = all candidates depends on it: fail closed
+    # on the pre-fix text.
+    m_wo = api.grab(t, r"let without_uid: Vec<usize> = candidate_zones\s*\.iter\(\)\s*\.enumerate\(\)\s*\.filter\(\|\(_, z\)\| z\.uid\(\)\.is_none\(\)\)",
+                    rel, "uid-less candidate zones collected in the per-uid branch (fix 4f45061)", re.S)
+    m_ld = api.grab(t, r"if let Some\(uid\) = self\.plan\.event_type_uid\(\)\.await \{\s*let loader = ZoneValueLoader::new\(self\.plan\.segment_base_dir\.clone\(\), uid\)\s*\.with_caches\(self\.caches\);\s*for idx in without_uid \{\s*if let Some\(zone\) = candidate_zones\.get_mut\(idx\) \{\s*loader\.load_zone_values\(",
+                    rel, "uid-less zones loaded with the event-type uid (fix 4f45061)", re.S)
+    m_pu = api.grab(t, r"for \(uid, indices\) in zones_by_uid \{", rel, "per-uid loaders")
+    m_else = api.grab(t, r"\} else \{\s*if tracing::enabled!\(tracing::Level::INFO\) \{\s*let mut uid_summary", rel, "per-uid branch")
+    if not (m_else.start() < m_wo.start() < m_ld.start() < m_pu.start()):
+        raise api.Missing(f"{rel}: the uid-less zones are not hydrated inside the per-uid branch")
     emit("-- literal typing order, StringCondition, LogicalOp::Not, SIMD branch order, pruner gates, planner order,")
-    emit("-- NOT complement, combiner copies, uid-dependent hydration: shapes checked")
+    emit("-- NOT complement, combiner copies, hydration of every candidate zone (uid or not): shapes checked")
     return "\n".join(out)
